@@ -4,6 +4,7 @@
 package cbh
 
 import (
+	"context"
 	"fmt"
 	"net/http"
 	"net/http/httptest"
@@ -66,6 +67,9 @@ type Driver struct {
 	InFlight  []*Flight
 	Log       []string
 	F, R, P   time.Duration
+	// NextCtx, when set, is the context of the next request only ("cancelled": the client has
+	// already gone away; "expired": an outer deadline has already passed).
+	NextCtx string
 }
 
 type Flight struct {
@@ -120,6 +124,19 @@ func (d *Driver) Start(headers ...string) (passed bool) {
 	for i := 0; i+1 < len(headers); i += 2 {
 		req.Header.Add(headers[i], headers[i+1])
 	}
+	switch d.NextCtx {
+	case "cancelled":
+		ctx, cancel := context.WithCancel(req.Context())
+		cancel()
+		req = req.WithContext(ctx)
+		d.logf("(next request: context already cancelled)")
+	case "expired":
+		ctx, cancel := context.WithDeadline(req.Context(), time.Unix(1, 0))
+		defer cancel()
+		req = req.WithContext(ctx)
+		d.logf("(next request: context deadline already passed)")
+	}
+	d.NextCtx = ""
 	c, err := d.Gate.Start(d.CB, req)
 	if err != nil {
 		// the clock is frozen and the handler is a gate: a request that neither reaches the
@@ -139,6 +156,13 @@ func (d *Driver) Start(headers ...string) (passed bool) {
 	}
 	d.logf("start->fallback")
 	return false
+}
+
+// Rewrap hands the breaker the handler it already protects through its public Wrap method
+// (what a chain rebuild does): nothing about the breaker's state may change.
+func (d *Driver) Rewrap() {
+	d.CB.Wrap(d.Gate)
+	d.logf("Wrap(same handler)")
 }
 
 // Finish completes in-flight request i with the given status.
